@@ -63,15 +63,35 @@ def thenTail (p : Option (RVal Ã— List CT)) (k : List CT â†’ Option (List RVal Ã
 def asList (p : Option (List RVal Ã— Bool Ã— List CT)) : Option (RVal Ã— List CT) :=
   match p with | some (xs, _, r') => some (.list xs, r') | none => none
 
-/-- `(x)` is a parenthesised expression, not a tuple: the printers never emit it -/
-def asTuple (p : Option (List RVal Ã— Bool Ã— List CT)) : Option (RVal Ã— List CT) :=
-  match p with
-  | some (xs, tc, r') => if xs.length == 1 && !tc then none else some (.tuple xs, r')
-  | none => none
-
 def asFset (p : Option (List RVal Ã— Bool Ã— List CT)) : Option (RVal Ã— List CT) :=
   match p with
   | some (xs, _, .code [41] :: r'') => some (.fset xs, r'')
+  | _ => none
+
+/-- `(x)` is a parenthesised expression, not a tuple: it denotes `x` (the printers emit it only as the placeholder `(...)`) -/
+def asTuple (p : Option (List RVal Ã— Bool Ã— List CT)) : Option (RVal Ã— List CT) :=
+  match p with
+  | some ([x], false, r') => some (x, r')
+  | some (xs, _, r') => some (.tuple xs, r')
+  | none => none
+
+/-- the first reading if there is one, else the second -/
+def orElseR (a b : Option (RVal Ã— List CT)) : Option (RVal Ã— List CT) :=
+  match a with | some x => some x | none => b
+
+/-- `float('inf')` and friends -/
+def floatSpecial (r : List CT) : Option (RVal Ã— List CT) :=
+  match r with | .code [40] :: .lit (some n) :: .code [41] :: r' => some (.fspecial n, r') | _ => none
+
+/-- `set()` -/
+def setEmpty (r : List CT) : Option (RVal Ã— List CT) :=
+  match r with | .code [40] :: .code [41] :: r' => some (.set [], r') | _ => none
+
+/-- `frozenset()` | `frozenset([..])` -/
+def fsetForms (r : List CT) (pt : List CT â†’ Option (List RVal Ã— Bool Ã— List CT)) : Option (RVal Ã— List CT) :=
+  match r with
+  | .code [40] :: .code [41] :: r' => some (.fset [], r')
+  | .code [40] :: .code [91] :: r' => asFset (pt r')
   | _ => none
 
 /-- `key : value` with a given expression reader -/
@@ -112,16 +132,13 @@ def parseV : Nat â†’ List CT â†’ Option (RVal Ã— List CT)
       else if s == [40] then
         asTuple (parseTailStart f [41] r)
       else if s == [123] then parseBrace f r
+      -- float / set / frozenset have literal-like forms of their own; any other use is an ordinary call
       else if s == sFloat then
-        (match r with | .code [40] :: .lit (some n) :: .code [41] :: r' => some (.fspecial n, r') | _ => none)
+        orElseR (floatSpecial r) (afterName s r (fun t => parseV f t) (fun t => parseTailStart f [41] t))
       else if s == sSet then
-        (match r with | .code [40] :: .code [41] :: r' => some (.set [], r') | _ => none)
+        orElseR (setEmpty r) (afterName s r (fun t => parseV f t) (fun t => parseTailStart f [41] t))
       else if s == sFrozenset then
-        (match r with
-          | .code [40] :: .code [41] :: r' => some (.fset [], r')
-          | .code [40] :: .code [91] :: r' =>
-            asFset (parseTailStart f [93] r')
-          | _ => none)
+        orElseR (fsetForms r (fun t => parseTailStart f [93] t)) (afterName s r (fun t => parseV f t) (fun t => parseTailStart f [41] t))
       else if isKwTok s then some (.kw s, r)
       else if isNumTok s then some (.num s, r)
       else if isNameTok s then
